@@ -11,6 +11,7 @@ EXPLANATION = (
     "occupied pending slot is never overwritten, a batch skips repeated ids, committed ids are recorded from the "
     "admitted batch; (R4) duplicate handling is read-only; (R5) causal parents are sorted and de-duplicated before "
     "hashing. Equality of committed ticks across arrival orders is NOT decided."
+    ' Replaying a persisted receipt correlation re-records the committed ingress on every success path.'
 )
 ASSUMPTIONS = ["BLAKE3 collision resistance", "BTreeMap/BTreeSet iterate in key order"]
 FLOOR = 35
